@@ -24,6 +24,23 @@ import (
 	"github.com/echovault/sugardb/sugardb"
 )
 
+// rwOrder is the order of the rewrite's own file operations.  A log sync seen before the rewrite has
+// truncated the log is not the rewrite's (under "everysec" a background goroutine syncs the log at any
+// moment) and does not move the stage.
+var rwOrder = map[string]int{"aof.pre.copied": 1, "aof.pre.truncate": 2, "aof.pre.write": 3, "aof.pre.sync": 4,
+	"aof.log.truncate": 5, "aof.log.select": 6, "aof.log.sync": 7, "rw.done": 8}
+
+func rwAdvances(cur, name string) bool {
+	n, ok := rwOrder[name]
+	if !ok {
+		return false
+	}
+	if (name == "aof.log.select" || name == "aof.log.sync") && rwOrder[cur] < rwOrder["aof.log.truncate"] {
+		return false
+	}
+	return n > rwOrder[cur]
+}
+
 type image struct {
 	Label    string // point name
 	Seq      int    // index of the point within the workload
@@ -149,7 +166,7 @@ func (rc *recorder) handle(name string, args ...any) {
 	if rc.inRw && !rc.nested && (name == "cmd.handled" || name == "cmd.logged") {
 		name = "rw.done" // the REWRITEAOF command itself completing: not a workload command
 	}
-	if rc.inRw && !rc.nested {
+	if rc.inRw && !rc.nested && rwAdvances(rc.rwStage, name) {
 		rc.rwStage = name
 	}
 	switch name {
